@@ -142,11 +142,12 @@ class Sock:
         self.closed = False               # the scenario closed / cancelled / destroyed it
         self.accepted = False; self.accept_t = None; self.acceptor = None
         self.local = None
+        self.reading = False              # a read (loop) was started on it
 
 
 def parse(impl, scn):
     T = dict(socks={}, udps={}, binds={}, listens=set(), dns={}, nodes={}, counts=None, proxy=None, crash=None,
-             udp_sent=[], udp_rx=[], nat=False, stopped=False)
+             udp_sent=[], udp_rx=[], nat=False, stopped=False, lossy=False)
     for ln in scn.split("\n"):
         t = ln.split()
         if not t: continue
@@ -154,6 +155,8 @@ def parse(impl, scn):
         elif t[0] == "dns" and len(t) >= 2:
             k = kvs(t[2:]); T["dns"][t[1]] = (k.get("err", "ok"), [x for x in k.get("ips", "").split(",") if x])
         elif t[0] == "hop" and len(t) >= 3 and t[2] == "nat": T["nat"] = True
+        elif t[0] == "hop" and len(t) >= 3 and t[2] == "dropper": T["lossy"] = True
+        elif t[0] == "hop" and len(t) >= 3 and t[2] == "queue" and int(kvs(t[3:]).get("cap", "0")) > 0: T["lossy"] = True
     pend = {}        # handler -> (kind, sock, extra)
     def S(n):
         if n not in T["socks"]: T["socks"][n] = Sock(n)
@@ -189,7 +192,7 @@ def parse(impl, scn):
                 elif m in ("write_loop", "write") and args:
                     pend[args[0]] = ("wloop", s, None)
                 elif m in ("read_loop", "read") and args:
-                    pend[args[0]] = ("read", s, None)
+                    pend[args[0]] = ("read", s, None); s.reading = True
                 elif m in ("close", "cancel", "destroy"):
                     s.closed = True
                 elif m == "local" and ":" in res: s.local = res
@@ -284,12 +287,15 @@ def _check(impl, scn):
     clients = [s for s in socks.values() if s.connect_to == pxep and s.connected]
     others = [s for s in socks.values() if s not in clients]
     expect_counts = [0, 0, 0]
+    maybe_counts = [0, 0, 0]       # requests of clients that closed on a lossy path: what was still unacknowledged is lost
     used_peers = set()
     nassoc = 0
     for c in sorted(clients, key=lambda s: (s.connect_t, s.name)):
         S = bytes(c.sent)
         g = negotiate(ver, S)
-        if g["cmd"] in (1, 2, 3): expect_counts[g["cmd"] - 1] += 1
+        if g["cmd"] in (1, 2, 3):
+            if c.closed and T["lossy"]: maybe_counts[g["cmd"] - 1] += 1
+            else: expect_counts[g["cmd"] - 1] += 1
         E = bytearray(g["prefix"])           # what the client must receive
         must_close = g["status"] == "reject"
         relay_peer = None; peer_expect = None
@@ -323,7 +329,7 @@ def _check(impl, scn):
                         fails.append(("relay", "%s: no connection accepted at %s received (a prefix of) the %d bytes the client sent after its request" % (c.name, tep, len(payload))))
                     elif best is not None:
                         relay_peer = best[0]; used_peers.add(relay_peer.name)
-                        if not c.closed and not relay_peer.closed and best[1] != len(payload) and not T["crash"]:
+                        if complete_ok(T, c, relay_peer) and best[1] != len(payload):
                             fails.append(("relay", "%s -> %s: %d of %d bytes arrived at the target although nobody closed" % (c.name, relay_peer.name, best[1], len(payload))))
                         peer_expect = bytes(relay_peer.sent)
                 else:
@@ -347,7 +353,7 @@ def _check(impl, scn):
                             payload = S[g["used"]:]
                             ok, got, d = verify_chunks(o.rx, payload)
                             if not ok: fails.append(("relay", "%s -> %s (BIND): %s" % (c.name, o.name, d)))
-                            elif not c.closed and not o.closed and got != len(payload) and not T["crash"]:
+                            elif complete_ok(T, c, o) and got != len(payload):
                                 fails.append(("relay", "%s -> %s (BIND): %d of %d bytes arrived although nobody closed" % (c.name, o.name, got, len(payload))))
                             peer_expect = bytes(o.sent)
                         else:
@@ -363,6 +369,11 @@ def _check(impl, scn):
             ok, got, d = verify_chunks(c.rx, bytes(E))
             if not ok:
                 fails.append(("reply", "%s (sent %s…): %s" % (c.name, S[:24].hex(), d)))
+            elif not c.reading:
+                pass                      # a client that never reads shows nothing
+            elif T["lossy"]:
+                pass                      # a dropped SYN is never retried, a dropped segment only retransmitted when a later ACK arrives,
+                                          # and the proxy closes right after a failure reply: completeness is not demanded on lossy paths
             elif not c.closed and got < complete_replies and not T["crash"]:
                 fails.append(("reply", "%s (sent %s…): only %d of the %d reply bytes arrived by the end of the run" % (c.name, S[:24].hex(), got, complete_replies)))
             elif must_close and not c.closed and not T["crash"]:
@@ -370,14 +381,20 @@ def _check(impl, scn):
                     fails.append(("closure", "%s: received %d bytes, more than the %d reply bytes" % (c.name, got, complete_replies)))
                 if c.rx_end != "eof":
                     fails.append(("closure", "%s (sent %s…): the proxy must disconnect this client, its read ended with %s" % (c.name, S[:24].hex(), c.rx_end)))
-            elif relay_peer is not None and peer_expect is not None and not c.closed and not relay_peer.closed and not T["crash"]:
+            elif relay_peer is not None and peer_expect is not None and complete_ok(T, c, relay_peer):
                 if got != len(E):
                     fails.append(("relay", "%s <- %s: %d of %d bytes arrived at the client although nobody closed" % (c.name, relay_peer.name, got, len(E))))
     if T["counts"] is not None and not T["crash"]:
-        if T["counts"] != expect_counts:
-            fails.append(("counters", "cmd_counts() = %s, requests received: %s" % (T["counts"], expect_counts)))
+        if any(not (expect_counts[i] <= T["counts"][i] <= expect_counts[i] + maybe_counts[i]) for i in range(3)):
+            fails.append(("counters", "cmd_counts() = %s, requests received: %s (+ at most %s from clients that closed on a lossy path)" % (T["counts"], expect_counts, maybe_counts)))
     fails += udp_check(T, px, pxip)
     return fails
+
+
+def complete_ok(T, a, b):
+    """may completeness be demanded of the stream between a and b? nobody closed, both read, and the
+    path loses nothing (the simulated TCP retransmits a lost segment only when a later ACK arrives)"""
+    return (not T["crash"]) and (not T["lossy"]) and (not a.closed) and (not b.closed) and a.reading and b.reading
 
 
 def udp_check(T, px, pxip):
